@@ -279,7 +279,9 @@ constraintName:
 	}
 
 tableConstraintList:
-	{ } |
+	{
+		$$ = nil
+	} |
 	',' constraintName tableConstraint {
 		$$ = []TableConstraint{$3}
 	} |
@@ -289,7 +291,9 @@ tableConstraintList:
 
 
 autoincrement:
-	{ } |
+	{
+		$$ = false
+	} |
 	AUTOINCREMENT {
 		$$ = true
 	}
@@ -325,7 +329,9 @@ typeName:
 	}
 
 collate:
-	{ } |
+	{
+		$$ = ""
+	} |
 	COLLATE literal {
 		$$ = $2
 	}
@@ -414,7 +420,9 @@ trigger:
 	}
 
 triggerList:
-	{ } |
+	{
+		$$ = nil
+	} |
 	triggerList trigger {
 		$$ = append($1, $2)
 	}
@@ -436,7 +444,9 @@ initiallyDeferred:
 	}
 
 where:
-	{ } |
+	{
+		$$ = nil
+	} |
 	WHERE expr {
 		$$ = $2
 	}
